@@ -84,6 +84,8 @@ class BuiltinConverterProvider(ConverterProvider):
 
     def _register_mangled(self, namespace: CascadeNamespace, base: str, obj: object) -> str:
         base = self._name_sanitizer.sanitize(base)
+        if base == "" or keyword.iskeyword(base):
+            base += "_"
         if namespace.try_add_constant(base, obj):
             return base
 
